@@ -1110,9 +1110,16 @@ class Elemwise(Blockwise):
         # Pad index to full length
         full_index = index + (slice(None),) * (len(out_ind) - len(index))
 
-        # Build sliced inputs
+        # Build sliced inputs. An array-valued ``where=`` mask and the ``out=``
+        # array it selects from are inputs of the block function too: they are
+        # sliced with the data operands (and split off again below).
+        operands = list(self.elemwise_args)
+        has_where = isinstance(self.where, ArrayExpr)
+        has_out = isinstance(self.out, ArrayExpr)
+        operands += [self.where] if has_where else []
+        operands += [self.out] if has_out else []
         new_args = []
-        for arg in self.elemwise_args:
+        for arg in operands:
             if is_scalar_for_elemwise(arg):
                 new_args.append(arg)
             else:
@@ -1157,12 +1164,15 @@ class Elemwise(Blockwise):
                 sliced_arg = new_collection(arg)[tuple(arg_slices)]
                 new_args.append(sliced_arg.expr)
 
+        new_out = new_args.pop() if has_out else self.out
+        new_where = new_args.pop() if has_where else self.where
+
         return Elemwise(
             self.op,
             self.operand("dtype"),
             self.operand("name"),
-            self.where,
-            self.out,
+            new_where,
+            new_out,
             self.operand("_user_kwargs"),
             *new_args,
         )
